@@ -3,6 +3,9 @@ namespace PyRates.Tables
 
 def histInitialCapacity : Nat := 1024
 def histGrowFactor : Nat := 2
+def heunCopiesRhs : Bool := true
+/-- BaseBackend.run builds `times` as np.arange(n)*step (true) or as linspace(0,T,n,endpoint=False)/unknown (false) -/
+def timeAxisIsArange : Bool := true
 
 /-- entries the extractor could not find in the source (a theorem that needs one fails to build) -/
 def missing : List String := []
